@@ -176,7 +176,7 @@ int main(int argc, char **argv) {
       << ",\"paths_budget\":" << ex.pathsBudget << ",\"paths_pending\":" << ex.work.size() << ",\"forks\":" << ex.forks << ",\n";
     o << " \"paths_with_assert\":" << ex.pathsWithAssert << ",\"paths_with_symbolic_assert\":" << ex.pathsWithSymAssert << ",\"asserts_checked\":" << ex.assertsChecked << ",\"asserts_symbolic\":" << ex.assertsSymbolic << ",\n";
     o << " \"instructions\":" << ex.totalInsns << ",\n";
-    o << " \"queries\":{\"total\":" << ex.qTotal << ",\"sat\":" << ex.qSat << ",\"unsat\":" << ex.qUnsat << ",\"unknown\":" << ex.qUnknown << ",\"decided_from_path_facts\":" << ex.qCached << ",\"fp_bitblast\":" << ex.qHeavy << ",\"decided_by\":{\"bitblast_sat\":" << ex.stratWins[0] << ",\"qffpbv\":" << ex.stratWins[1] << ",\"smt\":" << ex.stratWins[2] << "}" << ",\"slowest_s\":" << ex.slowestQ << "},\"solver_s\":" << ex.solverS << ",\"wall_s\":" << ex.elapsed() << ",\n";
+    o << " \"queries\":{\"total\":" << ex.qTotal << ",\"sat\":" << ex.qSat << ",\"unsat\":" << ex.qUnsat << ",\"unknown\":" << ex.qUnknown << ",\"decided_from_path_facts\":" << ex.qCached << ",\"fp_bitblast\":" << ex.qHeavy << ",\"decided_by\":{\"bitblast_sat\":" << ex.stratWins[0] << ",\"qffpbv\":" << ex.stratWins[1] << ",\"smt\":" << ex.stratWins[2] << ",\"cvc5\":" << ex.extWins[0] << ",\"z3-5.1\":" << ex.extWins[1] << "}" << ",\"slowest_s\":" << ex.slowestQ << "},\"solver_s\":" << ex.solverS << ",\"wall_s\":" << ex.elapsed() << ",\n";
     o << " \"reach\":{";
     { bool first = true; for (auto &kv : ex.reachCount) { if (!first) o << ","; first = false; o << "\"" << jesc(kv.first) << "\":" << kv.second; } }
     o << "},\n \"reach_missing\":[";
